@@ -5,7 +5,7 @@
    below holds for ALL oracles. *)
 From Coq Require Import String List ZArith Bool.
 Require Import Blots.Num Blots.gen.Builtins Blots.Ast Blots.gen.ParensTable Blots.Formatter
-  Blots.proofs.Comments Blots.proofs.Scan.
+  Blots.proofs.Comments Blots.proofs.Scan Blots.proofs.ScanFmt.
 Import ListNotations.
 Open Scope string_scope.
 Open Scope list_scope.
@@ -126,3 +126,49 @@ Example C09_render_scan_example :
   let d := fmtd ex_e2s (needs_parens_tbl parens_table) record_key_impl 80 ex_commented 0 in
   wf_doc d /\ scan_comments (render d) = expr_comments ex_commented.
 Proof. vm_compute. repeat split. Qed.
+
+(* no layout merges a comment into code or code into a comment: the document of every
+   expression is well-formed for the scanner, for every width and indentation, given
+   (a) the strings the layouts print themselves are harmless (atoms_ok: assigned names, parameter
+       names, shorthand keys contain no quote and no slash; static keys are accepted by key_ok,
+       for which format_record_key's text is self-contained; every comment is "//" + text without
+       a line break, a trailing field being such lines joined by newlines), and
+   (b) the texts printed through expr_to_source that occur in the document are lexically
+       self-contained (opaque_texts_neutral; expr_to_source is library-side here). *)
+Theorem C09_fmtd_wf_doc :
+  forall e2s np rk key_ok, (forall k, key_ok k = true -> neutral (rk k)) ->
+  forall w e i, atoms_ok key_ok e = true ->
+  opaque_texts_neutral (fmtd e2s np rk w e i) -> wf_doc (fmtd e2s np rk w e i).
+Proof. exact fmtd_wf_doc. Qed.
+Check C09_fmtd_wf_doc :
+  forall e2s np rk key_ok, (forall k, key_ok k = true -> neutral (rk k)) ->
+  forall w e i, atoms_ok key_ok e = true ->
+  opaque_texts_neutral (fmtd e2s np rk w e i) -> wf_doc (fmtd e2s np rk w e i).
+Print Assumptions C09_fmtd_wf_doc.
+
+(* the chain: the comments a lexer-level scan finds in the text the formatter prints for an
+   expression are the comments of its AST, in order (outside known finding C09-opaque-nested) *)
+Theorem C09_fmtd_text_comments :
+  forall e2s np rk key_ok, (forall k, key_ok k = true -> neutral (rk k)) ->
+  forall w e i, wf_ast e = true -> atoms_ok key_ok e = true ->
+  forallb cfree (doc_opaque (fmtd e2s np rk w e i)) = true ->
+  opaque_texts_neutral (fmtd e2s np rk w e i) ->
+  scan_comments (render (fmtd e2s np rk w e i)) = expr_comments e.
+Proof. exact fmtd_text_comments. Qed.
+Check C09_fmtd_text_comments :
+  forall e2s np rk key_ok, (forall k, key_ok k = true -> neutral (rk k)) ->
+  forall w e i, wf_ast e = true -> atoms_ok key_ok e = true ->
+  forallb cfree (doc_opaque (fmtd e2s np rk w e i)) = true ->
+  opaque_texts_neutral (fmtd e2s np rk w e i) ->
+  scan_comments (render (fmtd e2s np rk w e i)) = expr_comments e.
+Print Assumptions C09_fmtd_text_comments.
+
+(* all hypotheses hold for the example program with the executable oracles *)
+Example C09_text_comments_hypotheses_satisfiable :
+  (forall k, is_valid_identifier k = true -> neutral (record_key_impl k)) /\
+  atoms_ok is_valid_identifier ex_commented = true /\
+  opaque_texts_neutral (fmtd ex_e2s (needs_parens_tbl parens_table) record_key_impl 80 ex_commented 0).
+Proof.
+  split; [exact record_key_impl_neutral|]. split; [reflexivity|].
+  vm_compute. repeat constructor.
+Qed.
